@@ -15,6 +15,8 @@ Clause(c) ==
   ELSE IF N(c) = 0 THEN (IF c.demand_fit THEN "no_isophote_fitted" ELSE "ok")
   ELSE IF \E k \in 1..(N(c) - 1) : c.sma[k] >= c.sma[k + 1] THEN "sorted_by_strictly_increasing_sma"
   ELSE IF \E k \in 1..N(c) : c.sma[k] > c.maxsma_bound \/ (c.sma[k] > 0 /\ c.sma[k] < c.minsma_bound) THEN "sma_within_minsma_maxsma"
+  \* the central-pixel isophote (sma = 0) belongs to the result exactly when minsma = 0 was asked for
+  ELSE IF ~c.central_allowed /\ \E k \in 1..N(c) : c.sma[k] <= 0 THEN "sma_within_minsma_maxsma"
   ELSE IF ~c.image_untouched THEN "image_untouched"
   ELSE IF c.fix_center /\ \E k \in 1..N(c) : c.sma[k] > 0 /\ (c.x0[k] # c.x0_init \/ c.y0[k] # c.y0_init) THEN "fixed_centre_keeps_initial_value"
   ELSE IF c.fix_pa /\ \E k \in 1..N(c) : c.sma[k] > 0 /\ c.pa[k] # c.pa_init THEN "fixed_pa_keeps_initial_value"
